@@ -61,6 +61,9 @@ def is_const(tm) -> bool:
 
 
 def fold_binop(op, l, r):
+    if op in ("is", "is not") and is_const(l) and is_const(r) and type(l[1]) is type(r[1]) and l[1] == r[1] and l[1] is not None \
+            and not isinstance(l[1], bool) and type(l[1]).__name__ != "EnumVal" and not (type(l[1]) is int and -5 <= l[1] <= 256):
+        return ("cmp", op, l, r)  # identity of two equal non-singleton constants is not decided by their value
     if is_const(l) and is_const(r):
         a, b = l[1], r[1]
         try:
